@@ -508,7 +508,7 @@ def _codepoint_chunk(pts):
     lx = ref.lexer()
     for cp in pts:
         ch = chr(cp)
-        for text in ("x" + ch + "y", ch, "1" + ch + " 2"):
+        for text in ("x" + ch + "y", ch, "1" + ch + " 2", ch + "name a", "a 1" + ch):
             n += 1
             want = [(t.type, t.text if t.type != -1 else "<EOF>", t.start, t.stop, t.line, t.col) + ((1,) if t.name.endswith("@hidden") else ())
                     for t in lx.tokens(text, hidden=True)]
@@ -519,9 +519,17 @@ def _codepoint_chunk(pts):
 
 
 def _lexer_codepoints(tier, pool):
-    """Every code point of the BMP (quick: 0..0x2FFF densely plus every 13th above) in the contexts 'x<c>y', '<c>' and
-    '1<c> 2': the shipped lexer must tokenise exactly like the grammar (whitespace look-alikes, controls, non-ASCII letters)."""
+    """Every code point of the BMP (quick: 0..0x2FFF densely, every 13th above, and above 0x3000 all format characters,
+    separators, digits/numerals, connectors, dashes and specials such as U+FEFF) in the contexts 'x<c>y', '<c>', '1<c> 2',
+    '<c>name a' and 'a 1<c>': the shipped lexer must tokenise exactly like the grammar (whitespace look-alikes, controls, non-ASCII letters)."""
     pts = list(range(0, 0x3000)) + list(range(0x3000, 0x10000, 1 if tier != "quick" else 13)) + [0x1F600, 0x10FFFF, 0xE0001]
+    if tier == "quick":
+        # the code points above 0x3000 that text-processing code tends to single out are never skipped: format characters
+        # (byte order mark, zero-width joiners), separators, digits and numerals, connectors / dashes, specials, noncharacters
+        import unicodedata
+        pts += [c for c in range(0x3000, 0x10000) if unicodedata.category(chr(c)) in ("Cf", "Zs", "Zl", "Zp", "Cc", "Nd", "Nl", "No", "Pc", "Pd", "Cn")]
+        pts += [0xFEFF, 0xFFFE, 0xFFFF, 0xFFFD, 0xFFFC, 0xFF10, 0xFF21, 0xFF3F, 0xFE33]
+        pts = sorted(set(pts))
     pts = [c for c in pts if not 0xD800 <= c <= 0xDFFF]
     chunks = [pts[i::32] for i in range(32)]
     n, bad = 0, []
